@@ -274,9 +274,6 @@ type codeResp struct {
 	Codes []int `json:"codes"`
 }
 
-// strict: the pending C48 finding (storage range cut at the limit without proof) is a violation
-var strict = os.Getenv("VERIF_C48_STRICT") == "1"
-
 type checker struct {
 	w      *world
 	sum    *tl.Summary
@@ -439,14 +436,6 @@ func (c *checker) storage(scheme string, q storReq, accounts []common.Hash, orig
 			how = "whole-trie check"
 		}
 		if err != nil {
-			// TODO-KNOWN-FINDING (C48, pending coordinator decision): zero/absent origin with a limit
-			// below the last slot: the server stops at the limit without setting `abort`, so the
-			// truncated list is sent without proof and the client's whole-trie check fails.
-			if !strict && k == 0 && how == "whole-trie check" && q.Limit >= 0 && q.Origin <= 0 && q.Limit <= 2*len(a.slotKeys)-1 {
-				c.sum.Count("known-finding:storage-limit-without-proof")
-				k++
-				continue
-			}
 			c.sum.Violate(fmt.Sprintf("GetStorageRanges/%s %+v: client-side %s of list %d (account #%d, slots %v of %d) fails: %v", scheme, q, how, x, k+1, sl.Keys, len(a.slotKeys), err),
 				tl.M{"kind": "storage", "req": q, "resp": resp})
 			return resp, false
